@@ -4,3 +4,4 @@
 -/
 import RosuModel.Props.C19Curve
 import RosuModel.Props.C19Ieee
+import RosuModel.Props.C19IeeePos
